@@ -206,6 +206,14 @@ def boundary_strings(years):
                 except ValueError:
                     want = None
                 out += [(f"{y:04d}-{m:02d}-{d:02d}", want), (f"{y:04d}{m:02d}{d:02d}", want)]
+                if want is None and m in (2, 4, 12):
+                    # a date that does not exist stays impossible when the end-of-day notation 24:00 follows it
+                    out += [(f"{y:04d}-{m:02d}-{d:02d}T24:00:00", None), (f"{y:04d}-{m:02d}-{d:02d}T24:00", None),
+                            (f"{y:04d}{m:02d}{d:02d}T24", None), (f"{y:04d}-{m:02d}-{d:02d}T24:00:00Z", None),
+                            (f"{y:04d}-{m:02d}-{d:02d}T24:00:00+02:00", None), (f"{y:04d}{m:02d}{d:02d}T240000", None)]
+        for m, d in ((0, 15), (13, 5), (14, 1), (19, 31), (99, 99), (0, 0)):
+            out += [(f"{y:04d}-{m:02d}-{d:02d}", None), (f"{y:04d}-{m:02d}-{d:02d}T24:00:00", None), (f"{y:04d}-{m:02d}-{d:02d}T24:00:00+02:00", None),
+                    (f"{y:04d}{m:02d}{d:02d}T24", None), (f"{y:04d}-{m:02d}-{d:02d}T00:00:00", None)]
     return out
 
 
